@@ -515,6 +515,20 @@ def write_cfg(ctx, name, text):
     return name
 
 
+def path_pairs_cfg(ctx):
+    """exhaustive: M + two curve/line groups over {0,1}, every curve from a forcing template (mirror image /
+    control points on end points): all the coincidences the C->S, Q->T and curve->line rewrites decide on"""
+    return write_cfg(ctx, 'SvgPathGen_run_pairs.cfg', '\n'.join([
+        'SPECIFICATION Spec',
+        'CONSTANTS MaxTok = 15', 'MaxGroups = 3', 'Letters <- LettersCurvePairs', 'Modes <- ModesForced',
+        'Coords <- CoordsTiny', 'Radii <- RadiiSmall', 'Rots <- RotsSmall',
+        'ExclZ = %s' % ('TRUE' if excluded('z-draw') else 'FALSE'),
+        'ExclDeg = %s' % ('TRUE' if excluded('deg-smooth') else 'FALSE'),
+        'ExclZeroL = %s' % ('TRUE' if excluded('zeroL-smooth') else 'FALSE'),
+        'INVARIANTS InRange Counters EmitAcc',
+        'CHECK_DEADLOCK FALSE', '']))
+
+
 def path_gen_cfg(ctx, maxtok, sim, big=False):
     """sim with the small coordinate set: long walks in which coincidences (control point = reflection of the
     previous one, = an end point, zero-length lines) are frequent, i.e. the C->S, Q->T, curve->line rewrites
@@ -522,6 +536,7 @@ def path_gen_cfg(ctx, maxtok, sim, big=False):
     return write_cfg(ctx, 'SvgPathGen_run_%s.cfg' % (('simbig' if big else 'sim') if sim else 'bfs'), '\n'.join([
         'SPECIFICATION Spec',
         'CONSTANTS MaxTok = %d' % maxtok,
+        'MaxGroups = 1000', 'Letters <- LettersAll', 'Modes <- %s' % ('ModesAll' if sim else 'ModesFree'),
         'Coords <- %s' % ('CoordsSim' if big else 'CoordsSmall'),
         'Radii <- %s' % ('RadiiSim' if big else 'RadiiSmall'),
         'Rots <- %s' % ('RotsSim' if big else 'RotsSmall'),
@@ -560,6 +575,7 @@ def generate(ctx):
     w = max(2, min(8, vlib.JOBS // 2))
     t0 = vlib.time.time()
     cfg_pb = path_gen_cfg(ctx, 7 if q else 8, False)
+    cfg_pp = path_pairs_cfg(ctx)
     cfg_ps = path_gen_cfg(ctx, 120, True)
     cfg_pl = path_gen_cfg(ctx, 120, True, big=True)
     cfg_db = doc_gen_cfg(ctx, 'bfs', 7 if q else 8, 3 if q else 4)
@@ -580,16 +596,18 @@ def generate(ctx):
         pl=lambda: vlib.tlc(ctx, 'SvgPathGen', cfg_pl, workers=1, simulate='num=%d' % (30 if q else 400), depth=125,
                             seed=ctx.seed, timeout=1800),
         db=lambda: vlib.tlc(ctx, 'SvgDocGen', cfg_db, workers=min(4, w), heap='4g', timeout=3000),
+        pp=lambda: vlib.tlc(ctx, 'SvgPathGen', cfg_pp, workers=max(2, w // 2), heap='4g', timeout=3000),
+        cs=lambda: vlib.tlc(ctx, 'SvgCallSeq', 'SvgCallSeq.cfg', workers=1, timeout=600),
         ds=lambda: vlib.tlc(ctx, 'SvgDocGen', cfg_ds, workers=1, simulate='num=%d' % (400 if q else 4000), depth=45,
                             seed=ctx.seed, timeout=1800),
     )
-    with ThreadPoolExecutor(max_workers=9) as ex:
+    with ThreadPoolExecutor(max_workers=11) as ex:
         fut = {}
         for k, f in jobs.items():
             fut[k] = ex.submit(f)
             vlib.time.sleep(0.3)        # (vlib.tlc numbers its scratch directories without a lock)
         res = {k: f.result() for k, f in fut.items()}
-    for k in ('laws', 'laws2', 'design', 'design2', 'pb', 'db'):
+    for k in ('laws', 'laws2', 'design', 'design2', 'pb', 'pp', 'db', 'cs'):
         r = res[k]
         if r is None:
             continue
@@ -616,10 +634,14 @@ def generate(ctx):
     ctx.coverage['docs_enumerated'] = len(dex)
     dsim = uniq(tlc_json_lines(res['ds']['out']))
     ctx.coverage['docs_simulated'] = len(dsim)
-    if not pex or not psim or not dex or not dsim:
+    ppairs = uniq(tlc_json_lines(res['pp']['out']))
+    ctx.coverage['curve_pair_paths_enumerated'] = len(ppairs)
+    cseq = tlc_json_lines(res['cs']['out'])
+    ctx.coverage['call_sequences'] = len(cseq)
+    if not pex or not psim or not dex or not dsim or not cseq or not ppairs:
         raise vlib.Infra('a generator produced nothing')
     vlib.log('C05 generate: %.1fs (%s)' % (vlib.time.time() - t0, ', '.join('%s %.0fs' % (k, r['wall']) for k, r in res.items() if r)))
-    return pex, psim, dex, dsim
+    return pex, psim, dex, dsim, cseq, ppairs
 
 
 def design_sensitivity(ctx):
@@ -692,11 +714,12 @@ def repo_cases(ctx):
 def make_cases(ctx):
     rnd = ctx.rnd
     q = ctx.quick()
-    pex, psim, dex, dsim = generate(ctx)
+    pex, psim, dex, dsim, cseq, ppairs = generate(ctx)
     cases = []
 
     def add(c):
         c['id'] = len(cases)
+        c.setdefault('session', 1)
         cases.append(c)
 
     # exhaustive paths: every enumerated token string in one seeded style (quick: a seeded share of
@@ -708,6 +731,9 @@ def make_cases(ctx):
     for t in psim:
         for _ in range(2 if q else 4):
             rendered.append(rendered_path(t, rnd))
+    # curve pairs from forcing templates (exhaustive over {0,1}; quick: a seeded share)
+    for t in (vlib.sample(ppairs, 6000, rnd) if q else ppairs):
+        rendered.append(rendered_path(t, rnd))
     rnd.shuffle(rendered)
     for i in range(0, len(rendered), 20):
         mode = 'inline' if (i // 20) % 4 == 3 else 'standalone'
@@ -737,6 +763,24 @@ def make_cases(ctx):
     ctx.coverage['repo_paths'] = len(rp)
     ctx.coverage['repo_docs'] = len(rd)
     ctx.coverage['corpus_files'] = len(files)
+    # All of the above is session 1: ONE registry with ONE registered *svg.Minifier / *html.Minifier, the calls
+    # in seeded order, so standalone and inline calls interleave on the same instances.
+    rnd.shuffle(cases)
+    for i, c in enumerate(cases):
+        c['id'] = i
+    # Call sequences enumerated by TLC (SvgCallSeq: every order of standalone/inline calls up to 4), each on a
+    # fresh registry of its own: short histories, so a failure that depends on earlier calls has a short witness.
+    nsess = 0
+    for rep in range(2 if q else 12):
+        for seq in cseq:
+            nsess += 1
+            for m in seq:
+                mode = 'standalone' if m == 1 else 'inline'
+                t = rnd.choice(dex) if rnd.random() < 0.7 else rnd.choice(dsim)
+                c = dict(kind='doc', mode=mode, css=False, gen=True, src=list(render_doc(t, rnd, mode, 1)), session=100 + nsess)
+                c['id'] = len(cases)
+                cases.append(c)
+    ctx.coverage['call_sequence_sessions'] = nsess
     return cases
 
 
@@ -746,7 +790,7 @@ def run_driver(ctx, exe, cases, tag):
     tout = ctx.path('run', tag + '-trace.ndjson')
     with open(cin, 'w') as f:
         for c in cases:
-            f.write(json.dumps({k: v for k, v in c.items() if k not in ('origin', 'relfile', 'tag', 'clause')},
+            f.write(json.dumps({k: v for k, v in c.items() if k not in ('origin', 'relfile', 'tag', 'clause', 'what')},
                                separators=(',', ':')) + '\n')
     vlib.run([exe, cin, tout], timeout=3000)
     return [l.rstrip('\n') for l in open(tout) if l.strip()]
@@ -798,60 +842,135 @@ def ident_doc(c, clause):
     return d
 
 
+TINY = '<svg xmlns="http://www.w3.org/2000/svg" viewBox="0 0 1 1"><path d="M0 0L1 1"/></svg>'
+PROBES = [['inline'], ['standalone', 'inline'], ['standalone'], ['inline', 'standalone']]
+
+
+def histories_for(cases, c):
+    """candidate call histories for a rejection that does not reproduce on a fresh registry: the calls that
+    really preceded it (short TLC-enumerated sessions only), then minimal probes"""
+    out = []
+    if c.get('session', 0) >= 100:
+        prev = [x for x in cases if x.get('session') == c['session'] and x['id'] < c['id']]
+        if prev:
+            out.append([dict(mode=x['mode'], src=x['src']) for x in prev])
+    for p in PROBES:
+        out.append([dict(mode=m, src=list(TINY.encode())) for m in p])
+    return out
+
+
+def hist_ident(h):
+    return [[x['mode'], bytes(x['src']).decode('utf-8', 'replace')] for x in h]
+
+
 def confirm(ctx, exe, cases, lines, why):
-    """every rejected line: re-run ALONE in a fresh process and re-validate; only what is rejected
-    again is reported.  A rejected path of a multi-path document is first tried on its own; if it only
-    fails after the other paths of its document, the witness is the document prefix."""
-    redo = []
+    """Every rejected line is re-run in a fresh process on a FRESH registry and re-validated; only what is
+    rejected again is reported.  A rejected path of a multi-path document is first tried on its own; if it only
+    fails after the other paths of its document, the witness is the document prefix.  What does not fail on a
+    fresh registry is retried after a call history (its own short session, else minimal standalone/inline
+    probes): the witness then names the history.  What still does not reproduce is exit 2."""
     # the shortest rejected inputs make the best witnesses; at most 40 lines are re-run and reported
     order = sorted(why, key=lambda i: (len(lines[i]), i))[:40]
     ctx.coverage['rejections_rerun'] = len(order)
-    for i in order:
+
+    def variants(i, history):
         e = json.loads(lines[i])
         c = cases[e['id']]
+        out = []
         if e['kind'] == 'path':
-            redo.append(dict(kind='path', mode=e['mode'], gen=False, paths=[e['in']], what=('single', i)))
-            if c['kind'] == 'path' and len(c['paths']) > 1:
-                redo.append(dict(kind='path', mode=e['mode'], gen=False, paths=c['paths'][:e['sub'] + 1], what=('prefix', i)))
+            out.append(dict(kind='path', mode=e['mode'], gen=False, paths=[e['in']], what=('single', i)))
+            if c['kind'] == 'path' and len(c['paths']) > 1 and history is None:
+                out.append(dict(kind='path', mode=e['mode'], gen=False, paths=c['paths'][:e['sub'] + 1], what=('prefix', i)))
         else:
-            redo.append(dict(c, what=('doc', i)))
-    for k, c in enumerate(redo):
-        c['id'] = k
-    rl = run_driver(ctx, exe, [{kk: vv for kk, vv in c.items() if kk != 'what'} for c in redo], 'confirm')
-    _, why2, _ = validate(ctx, rl)
-    done = set()
-    reproduced = set()
+            out.append(dict(c, what=('doc', i)))
+        for x in out:
+            x['session'] = 0
+            x['history'] = history or []
+        return out
+
+    def rerun(redo, tag):
+        for k, c in enumerate(redo):
+            c['id'] = k
+        rl = run_driver(ctx, exe, redo, tag)
+        _, why2, _ = validate(ctx, rl)
+        return rl, why2
+
     reported = 0
-    for j in sorted(why2):
-        reproduced.add(redo[json.loads(rl[j])['id']]['what'][1])
-    lost = sorted(set(order) - reproduced)
-    if lost:
-        raise vlib.Infra('%d rejected lines were not rejected again when re-run alone, e.g. %s' % (
-            len(lost), line_text(json.loads(lines[lost[0]]))[:600]))
-    for j in sorted(why2):
-        e = json.loads(rl[j])
-        c = redo[e['id']]
-        kind, i = c['what']
-        clauses = why2[j]
-        if kind == 'single':
-            done.add(i)
-            ident = ident_path(e['mode'], bytes(e['in']).decode('latin1'))
-        elif kind == 'prefix':
-            if i in done or e['sub'] != len(c['paths']) - 1:
+    seen = set()
+
+    def report(rl, why2, redo):
+        nonlocal reported
+        done = set()
+        for j in sorted(why2):
+            e = json.loads(rl[j])
+            c = redo[e['id']]
+            kind, i = c['what'][0], c['what'][1]
+            clauses = why2[j]
+            hist = c.get('history') or []
+            if kind == 'single':
+                done.add(i)
+                ident = ident_path(e['mode'], bytes(e['in']).decode('latin1'))
+            elif kind == 'prefix':
+                if i in done or e['sub'] != len(c['paths']) - 1:
+                    continue
+                ident = dict(kind='path', mode=e['mode'], d=bytes(e['in']).decode('latin1'),
+                             after=[bytes(p).decode('latin1') for p in c['paths'][:-1]])
+            else:
+                if e['kind'] == 'path':
+                    continue            # the d attributes of a document are confirmed as single paths
+                for cl in clauses:
+                    ident = ident_doc(c, cl)
+                    if hist:
+                        ident['history'] = hist_ident(hist)
+                    if (i, cl) in seen:
+                        continue
+                    seen.add((i, cl))
+                    ctx.report(ident, '%s document%s: clause %s fails; input %s' % (
+                        e['mode'], (' after calls ' + '+'.join(h['mode'] for h in hist)) if hist else '', cl,
+                        (c.get('relfile') or bytes(c['src']).decode('utf-8', 'replace'))[:300]),
+                        replay_obj=dict(raw=e.get('raw'), err=e.get('err')))
+                    reported += 1
                 continue
-            ident = dict(kind='path', mode=e['mode'], d=bytes(e['in']).decode('latin1'),
-                         after=[bytes(p).decode('latin1') for p in c['paths'][:-1]])
-        else:
-            if e['kind'] == 'path':
-                continue            # the d attributes of a document are confirmed as single paths
-            for cl in clauses:
-                ctx.report(ident_doc(c, cl), '%s document: clause %s fails; input %s' % (
-                    e['mode'], cl, (c.get('relfile') or bytes(c['src']).decode('utf-8', 'replace'))[:300]),
-                    replay_obj=dict(raw=e.get('raw'), err=e.get('err')))
-                reported += 1
-            continue
-        ctx.report(ident, '%s: %s [%s]' % (e['mode'], line_text(e), '/'.join(clauses)), replay_obj=dict(line=e))
-        reported += 1
+            if hist:
+                ident['history'] = hist_ident(hist)
+            if (i, 'p') in seen:
+                continue
+            seen.add((i, 'p'))
+            ctx.report(ident, '%s%s: %s [%s]' % (e['mode'], (' after calls ' + '+'.join(h['mode'] for h in hist)) if hist else '',
+                                                 line_text(e), '/'.join(clauses)), replay_obj=dict(line=e))
+            reported += 1
+
+    # stage 1: alone on a fresh registry
+    redo = [v for i in order for v in variants(i, None)]
+    rl, why2 = rerun(redo, 'confirm')
+    reproduced = set(redo[json.loads(rl[j])['id']]['what'][1] for j in why2)
+    report(rl, why2, redo)
+    lost = [i for i in order if i not in reproduced]
+    # stage 2: after a call history
+    if lost:
+        redo2 = []
+        for i in lost:
+            c = cases[json.loads(lines[i])['id']]
+            for hk, h in enumerate(histories_for(cases, c)):
+                for v in variants(i, h):
+                    v['what'] = v['what'] + (hk,)
+                    redo2.append(v)
+        rl2, why3 = rerun(redo2, 'confirm-history')
+        # the first (smallest index) history that reproduces is the witness
+        best = {}
+        for j in why3:
+            c = redo2[json.loads(rl2[j])['id']]
+            i, hk = c['what'][1], c['what'][2]
+            if i not in best or hk < best[i]:
+                best[i] = hk
+        keep = {j: w for j, w in why3.items()
+                if best.get(redo2[json.loads(rl2[j])['id']]['what'][1]) == redo2[json.loads(rl2[j])['id']]['what'][2]}
+        report(rl2, keep, redo2)
+        ctx.coverage['rejections_needing_call_history'] = len(best)
+        still = [i for i in lost if i not in best]
+        if still:
+            raise vlib.Infra('%d rejected lines were rejected neither alone nor after a call history, e.g. %s' % (
+                len(still), line_text(json.loads(lines[still[0]]))[:600]))
     return reported
 
 
@@ -860,7 +979,8 @@ def run(ctx):
     cases = make_cases(ctx)
     pinned = vlib.known_cases(PID)
     for p in pinned:
-        c = dict(gen=False, css=False, origin='known')
+        c = dict(gen=False, css=bool(p.get('css')), origin='known', session=0,
+                 history=[dict(mode=h[0], src=list(h[1].encode('utf-8'))) for h in p.get('history', [])])
         if p['kind'] == 'path':
             c.update(kind='path', mode=p['mode'], paths=[list(p['d'].encode('latin1'))] if 'after' not in p else
                      [list(x.encode('latin1')) for x in p['after']] + [list(p['d'].encode('latin1'))])
@@ -936,7 +1056,8 @@ def run(ctx):
 def replay(ctx, obj):
     exe = vlib.build_harness(ctx, 'c05')
     c = obj['case']
-    case = dict(id=0, gen=False, css=bool(c.get('css')), mode=c['mode'])
+    case = dict(id=0, gen=False, css=bool(c.get('css')), mode=c['mode'], session=0,
+                history=[dict(mode=h[0], src=list(h[1].encode('utf-8'))) for h in c.get('history', [])])
     if c['kind'] == 'path':
         ps = [x for x in c.get('after', [])] + [c['d']]
         case.update(kind='path', paths=[list(p.encode('latin1')) for p in ps])
